@@ -35,7 +35,7 @@ fn main() {
             let bytes = std::fs::read(f).unwrap_or_default();
             let t0 = std::time::Instant::now();
             eprintln!("{f} ...");
-            let input = pv::fuzzrun::FuzzInput { target: target.clone(), hex: pv::fuzzrun::to_hex(&bytes), text: String::new() };
+            let input = pv::fuzzrun::FuzzInput { target: target.clone(), hex: pv::fuzzrun::to_hex(&bytes), text: String::new(), scope: std::env::var("PV_FUZZ_SCOPE").unwrap_or_default() };
             match pv::fuzzrun::oracle(&input, &mut pv::engine::Stats::scratch()) {
                 Ok(()) => eprintln!("{f}: ok ({:?})", t0.elapsed()),
                 Err(m) => {
